@@ -149,3 +149,21 @@ def val_repr(v):
 
 def mv_obj(algebra, keys, values, kind="MultiVector") -> Obj:
     return Obj(kind, {"algebra": algebra, "_keys": keys, "_values": values})
+
+
+# --------------------------------------------------------------------------- tree mode (operator trees over whole multivectors)
+def tree_interp(repo, d: int = 3, pss_sign: int = 1, r: int = 0, cls: str = "MultiVector", extra_attrs=None):
+    """Interpreter whose algebra stand-in supports composite codegens: d, r, pss, blades.e, signs[P, P], scalar()."""
+    P = 2 ** d - 1
+
+    def signs_getitem(key):
+        if key == (P, P):
+            return pss_sign
+        return Unk(f"signs[{key}]")
+
+    blades = Obj("blades", {"e": T.num(1, cls)})
+    attrs = {"d": d, "r": r, "pss": T.var("pss", cls), "blades": blades, "signs": Obj("dict", getitem=signs_getitem)}
+    attrs.update(extra_attrs or {})
+    it = make_interp(repo, attrs, {"__len__": lambda: 2 ** d},
+                     opaque_calls=("grade", "filter", "map", "items", "keys", "values", "grades"))
+    return it
